@@ -140,3 +140,26 @@ Print Assumptions c07_variant_scope.
 Print Assumptions c07_effective_key.
 Print Assumptions c07_field_filled_from_own_key.
 Print Assumptions c07_own_member_result.
+
+(** Without the hypothesis of distinct effective keys (the derive accepts two fields claiming one
+    key): a member can only fill a field whose effective key is exactly the member's key - "from no
+    other entry" - and it fills the first field declared with that key; a member whose key some
+    field claims does fill a field. *)
+Theorem c07_member_fills_first_claimant : forall fs d l k v i,
+  fst (s_member fs d l (k, v)) = Some i ->
+  exists f, nth_error fs i = Some f /\ sp_key f = k
+            /\ forall j g, (j < i)%nat -> nth_error fs j = Some g -> sp_key g <> k.
+Proof. exact member_fills_first_claimant. Qed.
+
+Theorem c07_claimed_key_fills : forall fs d l k v f,
+  In f fs -> sp_key f = k -> exists i, fst (s_member fs d l (k, v)) = Some i.
+Proof. exact member_with_claimed_key_fills. Qed.
+
+Check c07_member_fills_first_claimant : forall fs d l k v i,
+  fst (s_member fs d l (k, v)) = Some i ->
+  exists f, nth_error fs i = Some f /\ sp_key f = k
+            /\ forall j g, (j < i)%nat -> nth_error fs j = Some g -> sp_key g <> k.
+Check c07_claimed_key_fills : forall fs d l k v f,
+  In f fs -> sp_key f = k -> exists i, fst (s_member fs d l (k, v)) = Some i.
+Print Assumptions c07_member_fills_first_claimant.
+Print Assumptions c07_claimed_key_fills.
